@@ -55,6 +55,7 @@ def run(ctx, rep):
         rep.anchor("C07.bounds", "interpreter template extraction: %s" % e)
         tm = None
     f = F.fn(NEW)
+    f = F.inlined(f) if f is not None else None
     if f is None:
         rep.anchor("C07.bounds", NEW)
     elif tm is not None:
